@@ -174,33 +174,118 @@ func c07Final(b gofakes3.Backend) string {
 // interleaving at synchronisation granularity; the results and the final
 // state must equal those of one of the two sequential orders (run on the same
 // real code), no data race, no deadlock.
-func VH_C07() {
-	versioned := vsym.Choice("versioned", 2) == 1
-	opA := vsym.Choice("opA", 6)
+func c07Linearizable(mk func() gofakes3.Backend, tag string) {
+	nA := vsym.Param("opsa", 1) // client A issues that many operations one after the other
+	opsA := make([]int, nA)
+	bodiesA := make([][]byte, nA)
+	for i := range opsA {
+		opsA[i] = vsym.Choice("opA", 6)
+		bodiesA[i] = vsym.Bytes("bodyA", 1)
+	}
 	opB := vsym.Choice("opB", 6)
-	bodyA, bodyB := vsym.Bytes("bodyA", 1), vsym.Bytes("bodyB", 1)
-
-	// sequential references
-	s1 := c07State(versioned)
-	a1 := c07Op(s1, opA, bodyA)
-	b1 := c07Op(s1, opB, bodyB)
-	f1 := c07Final(s1)
-	s2 := c07State(versioned)
-	b2 := c07Op(s2, opB, bodyB)
-	a2 := c07Op(s2, opA, bodyA)
-	f2 := c07Final(s2)
+	bodyB := vsym.Bytes("bodyB", 1)
 
 	// concurrent run
-	s := c07State(versioned)
-	var ra, rb string
-	vsym.Go(func() { ra = c07Op(s, opA, bodyA) })
+	s := mk()
+	ra := make([]string, nA)
+	var rb string
+	vsym.Go(func() {
+		for i := range opsA {
+			ra[i] = c07Op(s, opsA[i], bodiesA[i])
+		}
+	})
 	vsym.Go(func() { rb = c07Op(s, opB, bodyB) })
 	vsym.Join()
 	f := c07Final(s)
-	ab := vsym.And(vsym.And(vsym.StrEq(ra, a1), vsym.StrEq(rb, b1)), vsym.StrEq(f, f1))
-	ba := vsym.And(vsym.And(vsym.StrEq(ra, a2), vsym.StrEq(rb, b2)), vsym.StrEq(f, f2))
-	vsym.Assert(vsym.Or(ab, ba), "C07/linearizable")
-	vsym.Reach("C07/done")
+
+	// Sequential references. Every operation is one atomic step except copy,
+	// which S3 (and the helper all backends use) performs as a read of the
+	// source followed by a write of the destination: other clients' operations
+	// may take effect in between, but each half is atomic. Client A's steps keep
+	// their order; B's steps are merged into them in every possible way.
+	type step struct {
+		client, idx, op, phase int
+		body                   []byte
+	}
+	expand := func(client, idx, op int, body []byte) []step {
+		if op == 3 {
+			return []step{{client, idx, op, 1, body}, {client, idx, op, 2, body}}
+		}
+		return []step{{client, idx, op, 0, body}}
+	}
+	var stepsA, stepsB []step
+	for i := range opsA {
+		stepsA = append(stepsA, expand(0, i, opsA[i], bodiesA[i])...)
+	}
+	stepsB = expand(1, 0, opB, bodyB)
+	any := false
+	// B's first step goes before A's p1-th step, its second (if any) before the p2-th
+	for p1 := 0; p1 <= len(stepsA); p1++ {
+		for p2 := p1; p2 <= len(stepsA); p2++ {
+			if len(stepsB) == 1 && p2 != p1 {
+				continue
+			}
+			var merged []step
+			for i := 0; i <= len(stepsA); i++ {
+				if i == p1 {
+					merged = append(merged, stepsB[0])
+				}
+				if i == p2 && len(stepsB) == 2 {
+					merged = append(merged, stepsB[1])
+				}
+				if i < len(stepsA) {
+					merged = append(merged, stepsA[i])
+				}
+			}
+			ref := mk()
+			same := true
+			var copied [2]struct {
+				data string
+				res  string
+			}
+			for _, st := range merged {
+				var res string
+				switch st.phase {
+				case 0:
+					res = c07Op(ref, st.op, st.body)
+				case 1:
+					o, err := ref.GetObject("bkt", "k", nil)
+					if err != nil {
+						copied[st.client].res = "copy-error:" + errCode(err)
+					} else {
+						data, _ := io.ReadAll(o.Contents)
+						o.Contents.Close()
+						copied[st.client].data = string(data)
+					}
+					continue
+				default:
+					res = copied[st.client].res
+					if res == "" {
+						d := []byte(copied[st.client].data)
+						if _, err := ref.PutObject("bkt", "j", map[string]string{}, bytes.NewReader(d), int64(len(d))); err != nil {
+							res = "copy-error:" + errCode(err)
+						} else {
+							res = "copy-ok"
+						}
+					}
+				}
+				if st.client == 0 {
+					same = vsym.And(same, vsym.StrEq(ra[st.idx], res))
+				} else {
+					same = vsym.And(same, vsym.StrEq(rb, res))
+				}
+			}
+			same = vsym.And(same, vsym.StrEq(f, c07Final(ref)))
+			any = vsym.Or(any, same)
+		}
+	}
+	vsym.Assert(any, tag+"/linearizable")
+	vsym.Reach(tag + "/done")
+}
+
+func VH_C07() {
+	versioned := vsym.Choice("versioned", 2) == 1
+	c07Linearizable(func() gofakes3.Backend { return c07State(versioned) }, "C07")
 }
 
 // yieldingBody delivers its bytes one at a time and yields to the scheduler
@@ -359,27 +444,5 @@ func c07StateKind(kind int) gofakes3.Backend {
 // object's file after their lock is released, bolt reads inside a transaction).
 func VH_C07k() {
 	kind := backendKind()
-	opA := vsym.Choice("opA", 6)
-	opB := vsym.Choice("opB", 6)
-	bodyA, bodyB := vsym.Bytes("bodyA", 1), vsym.Bytes("bodyB", 1)
-
-	s1 := c07StateKind(kind)
-	a1 := c07Op(s1, opA, bodyA)
-	b1 := c07Op(s1, opB, bodyB)
-	f1 := c07Final(s1)
-	s2 := c07StateKind(kind)
-	b2 := c07Op(s2, opB, bodyB)
-	a2 := c07Op(s2, opA, bodyA)
-	f2 := c07Final(s2)
-
-	s := c07StateKind(kind)
-	var ra, rb string
-	vsym.Go(func() { ra = c07Op(s, opA, bodyA) })
-	vsym.Go(func() { rb = c07Op(s, opB, bodyB) })
-	vsym.Join()
-	f := c07Final(s)
-	ab := vsym.And(vsym.And(vsym.StrEq(ra, a1), vsym.StrEq(rb, b1)), vsym.StrEq(f, f1))
-	ba := vsym.And(vsym.And(vsym.StrEq(ra, a2), vsym.StrEq(rb, b2)), vsym.StrEq(f, f2))
-	vsym.Assert(vsym.Or(ab, ba), "C07k/linearizable")
-	vsym.Reach("C07k/done")
+	c07Linearizable(func() gofakes3.Backend { return c07StateKind(kind) }, "C07k")
 }
